@@ -162,6 +162,21 @@ impl InlineCache {
     self.set_invoke(inline_slot, None);
   }
 
+  /// Forget what the invoke sites have cached for a class. A class that
+  /// gains a field, a module with every export, may now shadow a method
+  /// an entry has cached
+  pub fn forget_invoke_class(&mut self, class: ObjRef<Class>) {
+    for cache in self.invoke.iter_mut() {
+      if cache
+        .as_ref()
+        .map(|cache| cache.class == class)
+        .unwrap_or(false)
+      {
+        *cache = None;
+      }
+    }
+  }
+
   fn set_property(&mut self, inline_slot: usize, value: Option<PropertyCache>) {
     debug_assert!(inline_slot < self.property.len());
     unsafe { *self.property.get_unchecked_mut(inline_slot) = value };
